@@ -26,12 +26,12 @@ ASSUMPTIONS = ['reference units are the coherent SI units (kg m s A K mol cd); t
                'exceptions of type NotImplementedError/TypeError/ValueError on dimensionally valid calls are documented refusals (counted)',
                'function-array values: the unwrapped function array evaluated at the same sample points is the plain-number computation '
                '(NumPy semantics of function arrays are C07)']
-BUDGET_S = {'quick': 90, 'thorough': 840}
+BUDGET_S = {'quick': 90, 'thorough': 860}
 GRACE_S = 60
 
 SIZES = {
     'quick': dict(np=1400, fn=140, str=5000, alg=2000, unitpy=1000, useq=1200, np_steps=14, fn_steps=11),
-    'thorough': dict(np=40000, fn=4000, str=150000, alg=40000, unitpy=25000, useq=25000, np_steps=16, fn_steps=12),
+    'thorough': dict(np=30000, fn=2800, str=100000, alg=30000, unitpy=20000, useq=20000, np_steps=16, fn_steps=12),
 }
 CHUNK = dict(np=100, fn=10, str=500, alg=250, unitpy=100, useq=150)
 
@@ -194,7 +194,14 @@ def run_units(units, ctx):
                     if ctx.expired():
                         res.count(f'skipped_deadline/{fam}')
                         continue
-                    case = run_program(e, res, ctx.seed, fam, i, z[fam + '_steps'])
+                    try:
+                        case = run_program(e, res, ctx.seed, fam, i, z[fam + '_steps'])
+                    except AssertionError:
+                        raise
+                    except Exception as ex:
+                        res.count('harness_case_errors')
+                        res.note(f'{fam} {i}: {type(ex).__name__}: {ex} {traceback.format_exc()[-400:]}')
+                        continue
                     if i % 211 == 0:
                         res.sample(dict(case, program=case.get('program', [])[:6]))
             elif fam in ('str', 'alg', 'unitpy', 'useq'):
@@ -203,7 +210,13 @@ def run_units(units, ctx):
                     if ctx.expired():
                         res.count(f'skipped_deadline/{fam}')
                         continue
-                    f(e, res, ctx.seed, i)
+                    try:
+                        f(e, res, ctx.seed, i)
+                    except AssertionError:
+                        raise
+                    except Exception as ex:
+                        res.count('harness_case_errors')
+                        res.note(f'{fam} {i}: {type(ex).__name__}: {ex} {traceback.format_exc()[-400:]}')
             elif fam == 'table':
                 X.run_table(e, res, ctx.seed)
             elif fam == 'unitpy_prefixes':
@@ -302,7 +315,7 @@ def finalize(m, tier, seed):
                      divisions=c.get('string_divisions', 0), invalid_presented=c.get('invalid_strings_presented', 0),
                      invalid_rejected=c.get('invalid_strings_rejected', 0), invalid_kinds=sub('invalid_kind/')),
         unit_table=dict(entries_checked=c.get('table_entries_checked', 0), strings_checked=c.get('table_strings_checked', 0),
-                        named_dimensions_checked=c.get('named_dimensions_checked', 0), named_missing=sorted(m.sets.get('named_dimensions_missing', ())),
+                        named_dimensions_checked=c.get('named_dimensions_checked', 0), named_missing=sorted(m.sets.get('named_dimensions_missing', ())), named_anomalies=sorted(m.sets.get('named_dimension_anomalies', ())),
                         extension_strings=c.get('extension_strings', 0), extension_rejections=c.get('extension_rejections_ok', 0),
                         dalton_vs_codata2018_rel=abs(M.UNITS['Da'][0] - M.DALTON_CODATA2018) / M.DALTON_CODATA2018),
         algebra=dict(cases=c.get('algebra_cases', 0), laws_checked=c.get('laws_checked', 0), class_pickles=c.get('class_pickles', 0), laws=sub('law/')),
@@ -314,7 +327,7 @@ def finalize(m, tier, seed):
                              collisions_presented=c.get('units_collisions_presented', 0), collisions_rejected=c.get('units_collisions_rejected', 0)),
         locate=dict(cases=sub('locate_case/'), verified=c.get('locate_verified', 0)),
         timing=dict(slowest_worker_wall_s=m.maxima.get('worker_wall_s'), max_worker_cpu_s=m.maxima.get('worker_cpu_s'), wall_ms_by_family=sub('wall_ms/')),
-        harness=dict(generator_errors=c.get('generator_errors', 0), step_errors=c.get('harness_step_errors', 0), assertions=c.get('harness_assertions', 0),
+        harness=dict(case_errors=c.get('harness_case_errors', 0), generator_errors=c.get('generator_errors', 0), step_errors=c.get('harness_step_errors', 0), assertions=c.get('harness_assertions', 0),
                      fn_context_failed=c.get('fn_context_failed', 0), skipped_deadline=sub('skipped_deadline/')),
     )
     inc = []
@@ -344,7 +357,7 @@ def finalize(m, tier, seed):
         inc.append('collision monitor barely reached')
     if cov['fn_evaluations'] < 200:
         inc.append('function-array evaluations barely reached')
-    if cov['harness']['assertions'] or cov['harness']['generator_errors'] > .02 * max(1, cov['operations']) or cov['harness']['step_errors'] > .02 * max(1, cov['operations']):
+    if cov['harness']['assertions'] or cov['harness']['case_errors'] > .002 * max(1, cov['evaluations']) or cov['harness']['generator_errors'] > .02 * max(1, cov['operations']) or cov['harness']['step_errors'] > .02 * max(1, cov['operations']):
         inc.append(f"harness trouble: {cov['harness']}")
     if cov['marginal'] > .005 * max(1, cov['results_verified']):
         inc.append(f"{cov['marginal']} marginal float comparisons")
